@@ -139,6 +139,16 @@ fn notify_frame(id: u64) -> Vec<u8> {
     Message::builder().id(id).notify(true).query_str("/note").body_json(&json!({"id": id, "tag": 98})).unwrap().build().to_vec()
 }
 
+/// a request body whose serialization parks until released and then fails
+struct ParkFail(Arc<std::sync::atomic::AtomicBool>);
+impl serde::Serialize for ParkFail {
+    fn serialize<S: serde::Serializer>(&self, _s: S) -> Result<S::Ok, S::Error> {
+        let t0 = Instant::now();
+        while !self.0.load(Ordering::SeqCst) && t0.elapsed() < Duration::from_secs(3) { std::thread::sleep(Duration::from_millis(1)); }
+        Err(serde::ser::Error::custom("scripted serialization failure"))
+    }
+}
+
 enum AnyClient {
     Sync(Client),
     Async(AsyncClient),
@@ -175,6 +185,8 @@ struct Plan {
     cancel: Vec<usize>,        // callers (1-based) aborted after their request was read (async / ws)
     batch: bool,
     subscribe: bool,           // ws: a notification subscriber exists
+    ser_fail: bool,            // a further call whose body fails to serialize overlaps with the calls (it must not disturb the id sequence)
+    cancel_queued: bool,       // caller 1 is stuck writing a large request; caller 2, queued on the writer, is cancelled; caller 1 must still succeed
     notifies: usize,           // the client sends this many notifies before its calls: they draw ids from the same counter
     collide: bool,             // async: while all calls are in flight, a forward_message reuses an in-flight id (must be refused, must not disturb the call)
     big_writer: bool,          // one more caller is stuck writing a multi-MiB request when the fault arrives; the socket stays open afterwards
@@ -189,12 +201,17 @@ fn run_plan(kind: Kind, plan: &Plan, rt: &tokio::runtime::Runtime, log: &Arc<Log
     let plan_s = plan.clone();
     let log_s = log.clone();
     let seed: u64 = rng.r#gen();
-    let go = Arc::new(std::sync::atomic::AtomicBool::new(!(plan.collide || plan.big_writer)));
+    let go = Arc::new(std::sync::atomic::AtomicBool::new(!(plan.collide || plan.big_writer || plan.cancel_queued)));
     let go_s = go.clone();
     let srv_thread = std::thread::spawn(move || {
         let mut r = StdRng::seed_from_u64(seed);
         let mut srv = Srv::accept(&listener, kind);
         let mut reqs: Vec<(u64, u64)> = vec![];
+        if plan_s.cancel_queued {
+            // do not read anything until the queued caller has been cancelled
+            let t0 = Instant::now();
+            while !go_s.load(Ordering::SeqCst) && t0.elapsed() < Duration::from_secs(5) { std::thread::sleep(Duration::from_millis(1)); }
+        }
         let mut notify_ids: Vec<u64> = vec![];
         while reqs.len() < plan_s.read || notify_ids.len() < plan_s.notifies {
             match srv.read_req(Duration::from_secs(10)) {
@@ -370,6 +387,17 @@ fn run_plan(kind: Kind, plan: &Plan, rt: &tokio::runtime::Runtime, log: &Arc<Log
         }
     };
     let mut big_done: Option<Arc<std::sync::atomic::AtomicBool>> = None;
+    let ser_release = Arc::new(std::sync::atomic::AtomicBool::new(false));
+    if plan.ser_fail {
+        // this call takes an id, parks in the serialization of its body, and fails once the other calls are in flight
+        let (rel, log2) = (ser_release.clone(), log.clone());
+        match &client {
+            AnyClient::Sync(c) => { let c = c.clone(); std::thread::spawn(move || { let r = c.call_json("/c900", &ParkFail(rel)); log2.push(json!({"ev": "serfail", "err": r.is_err()})); }); }
+            AnyClient::Async(c) => { let c = c.clone(); rt.spawn(async move { let r = c.call_json("/c900", &ParkFail(rel)).await; log2.push(json!({"ev": "serfail", "err": r.is_err()})); }); }
+            AnyClient::Ws(c) => { let c = c.clone(); rt.spawn(async move { let r = c.call_json("/c900", &ParkFail(rel)).await; log2.push(json!({"ev": "serfail", "err": r.is_err()})); }); }
+        }
+        std::thread::sleep(Duration::from_millis(20));
+    }
     if plan.batch {
         // batch_json: results must be positionally aligned with the requests
         let reqs: Vec<(String, Value)> = (1..=plan.callers as u64).map(|c| (format!("/c{c}"), json!({"c": c}))).collect();
@@ -402,6 +430,7 @@ fn run_plan(kind: Kind, plan: &Plan, rt: &tokio::runtime::Runtime, log: &Arc<Log
                     std::thread::sleep(Duration::from_micros(300));
                 }
                 big_done = extra_step(&client, plan, rt, log, &go, from_seq);
+                if plan.ser_fail { std::thread::sleep(Duration::from_millis(30)); ser_release.store(true, Ordering::SeqCst); std::thread::sleep(Duration::from_millis(20)); }
                 let t0 = Instant::now();
                 for (c, done, h) in hs {
                     while !done.load(Ordering::SeqCst) && t0.elapsed() < watchdog {
@@ -415,7 +444,7 @@ fn run_plan(kind: Kind, plan: &Plan, rt: &tokio::runtime::Runtime, log: &Arc<Log
                 for c in 1..=plan.callers as u64 {
                     log.push(json!({"ev": "start", "c": c}));
                     let path = format!("/c{c}");
-                    let body = json!({"c": c});
+                    let body = if plan.cancel_queued && c == 1 { json!({"c": c, "pad": "x".repeat(8 << 20)}) } else { json!({"c": c}) };
                     let log2 = log.clone();
                     let h = match &client {
                         AnyClient::Async(cl) => { let cl = cl.clone(); rt.spawn(async move {
@@ -431,9 +460,17 @@ fn run_plan(kind: Kind, plan: &Plan, rt: &tokio::runtime::Runtime, log: &Arc<Log
                         _ => unreachable!(),
                     };
                     hs.push((c, h));
-                    std::thread::sleep(Duration::from_micros(300));
+                    std::thread::sleep(Duration::from_micros(if plan.cancel_queued { 30_000 } else { 300 }));
                 }
                 big_done = extra_step(&client, plan, rt, log, &go, from_seq);
+                if plan.ser_fail { std::thread::sleep(Duration::from_millis(30)); ser_release.store(true, Ordering::SeqCst); std::thread::sleep(Duration::from_millis(20)); }
+                if plan.cancel_queued {
+                    // caller 1 is stuck writing (the peer reads nothing yet), caller 2 waits for the writer: cancel caller 2
+                    std::thread::sleep(Duration::from_millis(80));
+                    for (c, h) in &hs { if *c == 2 { h.abort(); log.push(json!({"ev": "ret", "c": c, "cls": "cancelled", "rid": 0, "rtag": 0, "msg": "task aborted while waiting for the writer"})); } }
+                    std::thread::sleep(Duration::from_millis(20));
+                    go.store(true, Ordering::SeqCst);
+                }
                 // cancellation: abort the chosen callers once the server has read their requests
                 if !plan.cancel.is_empty() {
                     let t0 = Instant::now();
@@ -451,7 +488,7 @@ fn run_plan(kind: Kind, plan: &Plan, rt: &tokio::runtime::Runtime, log: &Arc<Log
                 }
                 let t0 = Instant::now();
                 for (c, h) in hs {
-                    if plan.cancel.contains(&(c as usize)) { let _ = rt.block_on(h); continue; }
+                    if plan.cancel.contains(&(c as usize)) || (plan.cancel_queued && c == 2) { let _ = rt.block_on(h); continue; }
                     let left = watchdog.saturating_sub(t0.elapsed());
                     if rt.block_on(async { tokio::time::timeout(left, h).await }).is_err() {
                         log.push(json!({"ev": "ret", "c": c, "cls": "hung", "rid": 0, "rtag": 0, "msg": "no return within 10 s"}));
@@ -701,7 +738,7 @@ pub fn run(a: &Args) -> i32 {
     let rt = tokio::runtime::Builder::new_multi_thread().worker_threads(4).enable_all().build().unwrap();
     let log = Arc::new(Log { seq: AtomicU64::new(0), ev: Mutex::new(vec![]) });
     let mut plans: Vec<Plan> = vec![];
-    let base = |callers: usize| Plan { callers, read: callers, order: (0..callers).collect(), junk: vec![], fault: None, timeout_ms: None, late: vec![], cancel: vec![], batch: false, subscribe: true, notifies: 0, collide: false, big_writer: false };
+    let base = |callers: usize| Plan { callers, read: callers, order: (0..callers).collect(), junk: vec![], fault: None, timeout_ms: None, late: vec![], cancel: vec![], batch: false, subscribe: true, ser_fail: false, cancel_queued: false, notifies: 0, collide: false, big_writer: false };
     if mode == "c04" {
         // every reply order for n callers, with one junk frame rotating through kinds and positions
         let junk_kinds: Vec<&'static str> = if kind == Kind::Ws { vec!["none", "unknown", "dup", "notify"] } else { vec!["none", "unknown", "dup"] };
@@ -740,6 +777,12 @@ pub fn run(a: &Args) -> i32 {
             pl.junk = vec![(0, "notify_id")];
             plans.push(pl);
         }
+        // a call whose body fails to serialize (after taking an id) overlaps the others: ids stay distinct afterwards
+        for m in [1usize, 3] {
+            let mut pl = base(m);
+            pl.ser_fail = true;
+            plans.push(pl);
+        }
         // batches
         for _ in 0..a.usize("batches", 6) {
             let m = rng.gen_range(2..=16);
@@ -774,6 +817,15 @@ pub fn run(a: &Args) -> i32 {
                 pl.big_writer = true;
                 plans.push(pl);
             }
+        }
+        // a caller cancelled while it waits for the writer (behind a large request in progress) leaves nothing behind:
+        // the request in progress still completes and is answered
+        if kind != Kind::Sync {
+            let mut pl = base(2);
+            pl.read = 1;
+            pl.order = vec![0];
+            pl.cancel_queued = true;
+            plans.push(pl);
         }
         if kind == Kind::Ws {
             for &inflight in &[0usize, 1, 3] {
